@@ -54,6 +54,7 @@ def nonce_monitor(case, log, ctx, seen=None):
                 if x.startswith("si="):
                     si[w[1]] = int(x[3:])
     last_emit = {}
+    had_key = {}
     for rec in log:
         if rec["op"] != "build":
             continue
@@ -67,6 +68,15 @@ def nonce_monitor(case, log, ctx, seen=None):
             continue
         if p["key"] and p["ty"] != 2 and not p["sealed"]:
             ctx.failure("clear-after-key", "datagram of type %d emitted in clear although a key is set" % p["ty"], {"case": case, "at": at})
+            return seen
+        if p["key"]:
+            had_key[rec["e"]] = True
+        elif had_key.get(rec["e"]) and p["ty"] != 2 and not p["sealed"]:
+            # the session key is gone from the object but the session is not: what is sent now still belongs to it
+            ctx.failure("clear-after-key", "%s emitted a datagram of type %d in clear (CRC only) after it had sent under a session key: the key "
+                        "was dropped before the session's last datagrams went out%s" %
+                        (rec["e"], p["ty"], "; it carries application messages" if any(t in (6, 7) for (_s, t, _d) in p["msgs"]) else ""),
+                        {"case": case, "at": at})
             return seen
         if not p["sealed"] and any(t in (6, 7) for (_s, t, _d) in p["msgs"]):
             ctx.failure("application-bytes-in-clear", "application message emitted in an unsealed datagram", {"case": case, "at": at})
